@@ -1,6 +1,6 @@
 """C12 - closing and reopening a project loses nothing it promised to keep.
 
-(a) Differential exploration: every history (depth<=d over 20 operations) is executed twice on
+(a) Differential exploration: every history (depth<=d over 21 operations) is executed twice on
 the real implementation - once straight through and once with close()+reopen inserted at one
 (thorough: one or two) of every possible position - and then driven through the same probes
 (undo everything, redo everything; selective undo of the oldest change).  The runs must agree
@@ -28,6 +28,8 @@ OPS = [
     ("undo",), ("redo",), ("analyze", "m.py"), ("W", "k.py", "a = 5\nb = 6\n"), ("undo_drop",),
     # one path that is a file in one change and a folder in a later one
     ("MV", "n.py", "n2.py"), ("CD", "", "n.py"),
+    # an explicit save in the middle of a session
+    ("sync",),
 ]
 OPS_SMALL = [OPS[i] for i in (0, 2, 5, 6, 7, 8, 9, 12, 13, 15, 16)]
 
@@ -175,7 +177,7 @@ def keys(n, memo={}):
 class C12(Check):
     pid = "C12"
     level = "model_checking"
-    rule = ("(a) states are event histories: all sequences of 20 operations (content edits incl. CRLF/unicode/empty/no-final-newline, "
+    rule = ("(a) states are event histories: all sequences of 21 operations (content edits incl. CRLF/unicode/empty/no-final-newline, "
             "create file/folder, file and folder moves, removal, nested change set, undo, redo, module analysis) to depth d; each "
             "feasible sequence is replayed on the real implementation without and with close()+reopen inserted at every position "
             "(thorough: also every pair of positions), followed by two probes (undo-all/redo-all, selective undo/redo of the oldest "
@@ -239,7 +241,14 @@ class C12(Check):
                 res["n"] += 1
                 res["traces"] += 1
                 res["trans"] += n + len(base)
-                got = execute(self.scratch, ops, pos, probe)
+                try:
+                    got = execute(self.scratch, ops, pos, probe)
+                except Infeasible as e:
+                    # an operation that worked without the reopen is refused after it
+                    res["fails"].append({"kind": "operation-refused-only-after-reopen", "features": sorted(set(f for o in ops for f in op_kinds(o)) | {"probe:" + probe, "reopens:%d" % len(pos)}),
+                                         "size": n, "detail": {"ops": [op_str(o) for o in ops], "reopen_after": list(pos), "probe": probe, "message": str(e)},
+                                         "case": dict(case, only=[list(pos), probe])})
+                    continue
                 carried = [o for o in got if o[0] == "history"][0][1] != ([], [])
                 feats = sorted(set(f for o in ops for f in op_kinds(o)) | {"probe:" + probe, "reopens:%d" % len(pos)})
                 got_cmp = [o for o in got if o[0] != "objectdb-across-reopen"]
